@@ -162,6 +162,13 @@ def free_search(chk, stats, n_sched):
         # every third schedule: thread 1 probes, calls and leaves TWICE (a fresh probe on the same variable) while
         # thread 0 is somewhere in its own activation / call / deactivation
         twice = k % 3 == 2
+        if n_sched >= 100 and k < 75:
+            # systematically: thread 0 is stopped after k of its stops (everywhere in its activation, call and
+            # deactivation), thread 1 runs from start to end there, then thread 0 finishes
+            twice = False
+            sels, owns = CONFIGS[0]
+            schedule = [0] * k + [1] * 400 + [0] * 400
+            sched_text = "thread 0: %d stops, thread 1 from start to end, then thread 0 to the end" % k
         if twice:
             sels, owns = CONFIGS[0]
             schedule = [0] * i + [1] * 400 + [0] * 60
